@@ -31,14 +31,30 @@ LEVEL_TEXT = ("Coq theorems, for every evaluation function, candidate set, subse
               "optimisers the theorem part is the operators (and that the optimiser is configured with them); every run is additionally "
               "validated by a result monitor, in Python and in Coq (feasibility, bounds, dtype, reported values == fresh evaluation, mutual "
               "non-domination, problem unchanged), including problems without any feasible decision (the least-violating member is returned), "
-              "subsets equal to the whole candidate set and problems constructed with elementwise=False")
+              "subsets equal to the whole candidate set and problems constructed with elementwise=False. "
+              "Phase 2: the expressions and statements on which these theorems turn are REGENERATED FROM THE SOURCE on every run "
+              "(harness/translate/c06_kernel.py -> Gen/C06_Kernel.v, 74 definitions): the climbers' acceptance tests, score/violation formulas, "
+              "accepting branches (which of best_i/j/obj/ineqcv/eqcv/score/cv is assigned from what), loop head, break test, commit, element exchange "
+              "and exchange pool; the sorting key, slice bounds and singleton evaluations; dominates; tiled_choice's tiles; the crossover/mutation masks, "
+              "exchange count and exchange; MutatorA/B's unused-candidate set, guard, step count, tiled-draw arguments, trial-row assignment and "
+              "front argmin; the integer rounding; and the table (class, Solution keyword, provenance) of all sixteen optimiser classes. "
+              "Proofs/C06_Kernel.v links each to the hand model (by conversion) and proves that the loop re-assembled from the generated statements, "
+              "keeping the state the source keeps (stored best_score/best_cv), refines the model's climber and reports the score/violation of the "
+              "returned decision; theorems C06_kernel_* restate feasibility, optimality, the climber result clause, dominates being a strict "
+              "partial order, the tiling of tiled_choice and the Solution-construction table about the generated definitions; scale covariance "
+              "of both climbers and of the sorting optimiser (positive rescaling of violations / scores changes no trajectory) is proved")
 LEVEL_NOTE = ("trusted: Coq kernel + vm_compute; pymoo's evolutionary loop, survival and result extraction (validated at run time only); "
               "numpy.random.choice(replace=False) returning distinct positions; numpy fancy-index assignment semantics (last write wins); "
               "numpy float arithmetic on small integers being exact; numpy argsort tie order is not relied upon (keys are compared); "
               "pymoo NonDominatedSorting returning the first front in ascending position order and numpy.argmin returning the first minimum "
               "(both mirrored by the model and compared on every op_hcAB case); the "
               "other memetic mutations (steepest/stochastic descent) are covered by the run-time monitor only; theorems are about the "
-              "Gallina model, the tie to the code is differential on generated inputs")
+              "Gallina model, the tie to the code is differential on generated inputs plus, for the kernel expressions, the fail-closed ast translator "
+              "c06_kernel.py (trusted: it fixes the statement shapes it accepts; anything else is reported as a broken correspondence); numpy's "
+              "boolean-mask selection / fancy-index assignment / argsort semantics are restated by the translator's templates (compress, scatter, "
+              "assign_at, set_nth, isort); StochasticHillClimberMutation and MultiObjectiveSteepestDescentHillClimberMutation are driven directly "
+              "(feasibility, aliasing, truthful stored objectives) but not modelled; MutatorF and two hill-climb classes used by no optimiser are "
+              "listed in SKIPPED / restricted (see COVERED)")
 TECHNIQUE = "Coq proof over an executable model; in-Coq vm_compute correspondence (call traces, scripted draws); run-time result monitor"
 RULE = ("case = (kind, problem, draws): kinds sort|sd|ssd (integer table problems: linear + pair-interaction objective, clipped/raw "
         "inequality and equality constraints, candidate sets of 1..10 (a few 11..16) elements incl. k=1, k=n, tied keys; sd with scripted "
@@ -47,11 +63,20 @@ RULE = ("case = (kind, problem, draws): kinds sort|sd|ssd (integer table problem
         "so that allele draws wrap around), ga (all 13 pymoo-based classes, ngen 1..6, pop 1..12, with/without "
         "constraints, certainly infeasible problems for every class, k=n incl. every individual hill-climbed, elementwise=False); generated from one PRNG; non-trivial = climber makes at least one exchange / "
         "crossover exchanges at least one element / sorting or GA has k<n (or a non-degenerate box) / rounding has a fractional input / "
-        "hill-climb step changes the chromosome; distinct by SHA-256 of the case")
+        "hill-climb step changes the chromosome; distinct by SHA-256 of the case. Phase 2 additions: session (one problem object and one set of "
+        "optimiser objects reused for 2-4 calls, the problem changed in between through its setters ndecn / decn_space / obj_wt / ineqcv_wt or by "
+        "overwriting its data arrays in place; every call must equal a fresh run on the state at that call; optionally a reused SubsetGeneticAlgorithm), "
+        "objective / constraint weights scaled by 2^-40..2^20 (model run in units of the scale; exact), candidate sets of 130..300 members with labels "
+        "beyond int8/uint8, op_dom (dominates incl. ties, zero / negative / positive violations, scaled by 2^-40 / 2^20), op_tiled (tiled_choice "
+        "directly, size 0, < a, multiples of a), op_hc2 (hillclimb of the four other memetic mutation classes called directly), GA constructor "
+        "parameters rng and nhcstep, aliasing (every returned solution array is overwritten in place and the problem re-compared; operator "
+        "results must not share memory with their inputs); the public entry points of the 17 anchored modules are enumerated by introspection at "
+        "run time and must all be classified (COVERED with their parameter lists / SKIPPED with a reason)")
 TRUSTED = ["pymoo 0.6.2 GA/NSGA2/NSGA3 loops and Result extraction (not modelled; every run is checked by the result monitor)",
            "numpy.random.choice(..., replace=False) yields distinct positions (oracle contract assumed by sampling_feasible)",
            "numpy.random functions are replaced inside run_impl by a recording script for the operator cases; pymoo's default_rng(None) is "
-           "redirected to a seeded generator so that runs are replayable"]
+           "redirected to a seeded generator so that runs are replayable",
+           "harness/translate/c06_kernel.py (ast -> Gallina for the kernel expressions; fail closed on any statement shape it does not describe)"]
 ASSUMPTIONS = ["candidate set duplicate-free, ndecn <= len(decn_space) (SubsetProblem checks the length)",
                "evalfn is a pure function of the decision vector", "table problems are integer valued (exact in binary64)"]
 
@@ -783,7 +808,7 @@ def _evalT(out, i, p=None):
     so, scv = (_sc(p, "osc"), _sc(p, "csc")) if p is not None else (1, 1)
     return "(%s, %s, %s)" % (_zl_from_hex(out["obj"][i], so), _zl_from_hex(out["ineq"][i], scv), _zl_from_hex(out["eq"][i], scv))
 
-def emit_case(case, out):
+def _emit_case(case, out):
     kind = case["kind"]
     if "exc" in out:
         return "false"                                    # no modelled operation / optimiser run is allowed to raise
@@ -953,6 +978,13 @@ def emit_case(case, out):
         return "(" + "\n  && ".join(parts) + ")"
     return "false"
 
+def emit_case(case, out):
+    """an output the model's number types cannot hold (NaN, infinity, a non-integer where the problem is integer valued) is a disagreement"""
+    try:
+        return _emit_case(case, out)
+    except (ValueError, OverflowError, KeyError, IndexError, TypeError):
+        return "false"
+
 # ------------------------------------------------------------------------------------------------ independent predicate
 def _lex(cvs):  # (cv, score)
     return cvs
@@ -1010,9 +1042,10 @@ def _monitor(case, out, bad):
         if fr[1] != out["ineq"][i]: bad.append("soln_ineqcv[%d] differs from a fresh evalfn" % i)
         if fr[2] != out["eq"][i]: bad.append("soln_eqcv[%d] differs from a fresh evalfn" % i)
         if want is not None:
-            if [Fraction(v) for v in F[i]] != [Fraction(v) for v in want[0]]: bad.append("soln_obj[%d] != objective of the decision (independent evaluation)" % i)
-            if [Fraction(v) for v in G[i]] != [Fraction(v) for v in want[1]]: bad.append("soln_ineqcv[%d] != constraint values of the decision" % i)
-            if [Fraction(v) for v in H[i]] != [Fraction(v) for v in want[2]]: bad.append("soln_eqcv[%d] != constraint values of the decision" % i)
+            fr = lambda vs: [Fraction(v) if v == v and abs(v) != float("inf") else repr(v) for v in vs]      # non-finite values never equal a Fraction
+            if fr(F[i]) != [Fraction(v) for v in want[0]]: bad.append("soln_obj[%d] != objective of the decision (independent evaluation)" % i)
+            if fr(G[i]) != [Fraction(v) for v in want[1]]: bad.append("soln_ineqcv[%d] != constraint values of the decision" % i)
+            if fr(H[i]) != [Fraction(v) for v in want[2]]: bad.append("soln_eqcv[%d] != constraint values of the decision" % i)
     # mutual non-domination (constraint violation first, as pymoo_addon.dominates)
     cvs = [sum(max(0.0, v) for v in g) + sum(abs(v) for v in h) for g, h in zip(G, H)]
     for i in range(len(F)):
@@ -1024,7 +1057,7 @@ def _monitor(case, out, bad):
                 dom = cvs[i] < cvs[j]
             if dom: bad.append("solution %d is dominated by solution %d" % (j, i)); break
 
-def pred(case, out):
+def _pred(case, out):
     kind = case["kind"]
     if "exc" in out:
         return ["implementation raised %s: %s" % (out["exc"], out["msg"])]
@@ -1150,6 +1183,12 @@ def pred(case, out):
     for b in bad:
         if b not in seen: seen.append(b)
     return seen[:8]
+
+def pred(case, out):
+    try:
+        return _pred(case, out)
+    except (ValueError, OverflowError, KeyError, IndexError, TypeError) as e:
+        return ["the output cannot be interpreted by the predicate (%s: %s)" % (type(e).__name__, str(e)[:120])]
 
 def classify(case, out, clauses):
     # every finding of this property has been repaired in the library (known_findings.d/C06.json: all "fixed"):
